@@ -48,13 +48,12 @@ pub fn print_body(b: &[S]) -> String {
     b.iter().map(print_s).collect()
 }
 fn print_carg(a: &CArg) -> String {
+    // a value is a string literal or `{expression}`; a space before the closing brace keeps `}}` from being read as a delimiter
     match a {
-        CArg::Named(n, e) => match e {
-            E::Str(_) | E::Int(_) | E::Float(_) | E::Bool(_) => format!("{n}={}", print(e, Mode::Minimal)),
-            _ => format!("{n}={{{}}}", print(e, Mode::Minimal).replace("}}", "} }")),
-        },
-        CArg::Short(n) => format!("{{{n}}}"),
-        CArg::Spread(e) => format!("{{...{}}}", print(e, Mode::Minimal)),
+        CArg::Named(n, E::Str(s)) => format!("{n}={}", print(&E::Str(s.clone()), Mode::Minimal)),
+        CArg::Named(n, e) => format!("{n}={{ {} }}", print(e, Mode::Minimal)),
+        CArg::Short(n) => n.clone(),
+        CArg::Spread(e) => format!("{{ ...{} }}", print(e, Mode::Minimal)),
     }
 }
 pub fn print_s(s: &S) -> String {
